@@ -15,13 +15,15 @@ def make_plan(seed: int, tier: str, opts: dict) -> dict:
     spec = common.gen_supported_spec(r, max_nodes=4 if tier == "quick" else 6, tie_p=0.25, overrun_bias=0.8)
     M = opts.get("episodes", 3)
     eps = [driver.gen_episode(r, j, open_loop=spec["open_loop"], nsteps=r.randint(6, 16), endings=("stop",), override_p=0.1) for j in range(M)]
+    common.add_reconfig(r, spec, eps)
     for ep in eps:
         ep["until_active"] = True
     return dict(spec=spec, seed=seed, episodes=eps, clock="sim", line_rate=0.0)
 
 
 def run_plan(plan: dict, replay=None) -> dict:
-    ro = driver.execute(plan, replay=replay)
+    snap = {}
+    ro = driver.execute(plan, replay=replay, after_build=lambda nodes_: snap.update(common.snapshot_delays(nodes_)))
     res = dict(plan=plan)
     if ro.status in ("harness_error", "replay_diverged", "build_error"):
         res.update(status="harness_error", detail=f"{ro.status}: {ro.harness_error or ro.detail}")
@@ -30,7 +32,9 @@ def run_plan(plan: dict, replay=None) -> dict:
         res.update(common.summarise(ro, plan))
         res.update(status="precondition_failed", detail=f"episode did not complete ({ro.status}: {ro.detail[:300]})", decisions=ro.decisions, widths=ro.widths)
         return res
-    viol, verdicts, unavailable = judge(plan, ro, lambda eo: oracles.check_c04(eo.record, ro.nodes, plan["spec"]))
+    final_spec = plan["episodes"][-1].get("spec_after") or plan["spec"]
+    viol, verdicts, unavailable = judge(plan, ro, lambda eo: oracles.check_c04(eo.record, ro.nodes, common.materialise(eo.plan.get("spec_after") or plan["spec"], snap),
+                                                                                live_nodes=(eo.plan.get("spec_after") or plan["spec"]) == final_spec))
     res.update(common.summarise(ro, plan, verdicts, extra_sums=dict(record_unavailable=unavailable, episodes_judged=len(verdicts))))
     kinds = {}
     for nd in plan["spec"]["nodes"]:
